@@ -415,7 +415,11 @@ impl ReadXml for Reply {
                     loop {
                         match reader.read_resolved_event()? {
                             (ResolveResult::Bound(xmlns::BASE), Event::Empty(tag))
-                                if tag.local_name().as_ref() == b"ok" && this.is_none() =>
+                                if tag.local_name().as_ref() == b"ok"
+                                    && this.is_none()
+                                    && errors.iter().all(|err| {
+                                        err.severity() != rpc::error::Severity::Error
+                                    }) =>
                             {
                                 tracing::debug!(?tag);
                                 this = Some(Self::Ok);
